@@ -777,6 +777,12 @@ impl<'a, 'tcx> Cx<'a, 'tcx> {
                             f.push(("enum", J::s(adt)));
                             f.push(("variant", J::s(v)));
                         }
+                        // `&Some(true)` / `&Variant(3)`: a variant with one scalar constant as payload
+                        if let Some((adt, v, payload)) = self.promoted_variant_payload(uv.def, p) {
+                            f.push(("enum", J::s(adt)));
+                            f.push(("variant", J::s(v)));
+                            f.push(("payload", J::obj(payload)));
+                        }
                     } else {
                         f.push(("item", J::s(def_path(self.tcx, uv.def))));
                     }
@@ -834,6 +840,43 @@ impl<'a, 'tcx> Cx<'a, 'tcx> {
                             let def = self.tcx.adt_def(*did);
                             if def.is_enum() && ops.is_empty() {
                                 found.push((def_path(self.tcx, *did), def.variant(*vidx).name.to_string()));
+                            }
+                        }
+                    }
+                }
+            }
+        }
+        if found.len() == 1 {
+            found.pop()
+        } else {
+            None
+        }
+    }
+
+    fn promoted_variant_payload(&self, def: DefId, p: mir::Promoted) -> Option<(String, String, Vec<(&'static str, J)>)> {
+        let ld = def.as_local()?;
+        let proms = self.tcx.promoted_mir(ld.to_def_id());
+        let b = proms.get(p)?;
+        let mut found = Vec::new();
+        for bb in b.basic_blocks.iter() {
+            for st in &bb.statements {
+                if let StatementKind::Assign(bx) = &st.kind {
+                    let (_, rv) = &**bx;
+                    if let Rvalue::Aggregate(kind, ops) = rv {
+                        if let mir::AggregateKind::Adt(did, vidx, _, _, _) = &**kind {
+                            let def = self.tcx.adt_def(*did);
+                            if def.is_enum() && ops.len() == 1 {
+                                if let Some(Operand::Constant(c)) = ops.iter().next() {
+                                    let ty = c.const_.ty();
+                                    if ty.is_bool() || ty.is_integral() {
+                                        if let Ok(v) = c.const_.eval(self.tcx, self.env, c.span) {
+                                            let pj = const_value_json(self.tcx, ty, v);
+                                            if !pj.is_empty() {
+                                                found.push((def_path(self.tcx, *did), def.variant(*vidx).name.to_string(), pj));
+                                            }
+                                        }
+                                    }
+                                }
                             }
                         }
                     }
